@@ -153,6 +153,11 @@ def check_case(case, ctx):
             case,
         )
         return
+    for srec, r in zip(cfg.settings_tuple, ref):
+        sname = getattr(srec.index, "name", None) or f"BeaconSetting_{r[0]}"
+        if sname not in expected_name(r[0], r[1]):
+            ctx.violation("views.names", f"settings_tuple names index {r[0]} type {r[1]} {sname!r}, expected one of {expected_name(r[0], r[1])}", case)
+            return
     if any(r[0] == 9 and r[2] == 0x80 and len(r[3]) > 0x80 for r in ref):
         ctx.mon("useragent.continuation")
     if cfg.config_block != block:
@@ -188,11 +193,16 @@ def check_case(case, ctx):
     if [k.value for k in by_enum.keys()] != list(exp.keys()) or len(by_name) != len(exp):
         ctx.violation("views.order", "enum/name-indexed views do not list the same settings in the same order", case)
         return
-    for (idx, ((kind, want), typ, rawval)), name, nv, cv, ev, uv in zip(
-        exp.items(), by_name.keys(), by_name.values(), by_const.values(), by_enum.values(), unparsed.values()
+    for (idx, ((kind, want), typ, rawval)), name, ekey, nv, cv, ev, uv in zip(
+        exp.items(), by_name.keys(), by_enum.keys(), by_name.values(), by_const.values(), by_enum.values(), unparsed.values()
     ):
         if name not in expected_name(idx, typ):
             ctx.violation("views.names", f"index {idx} type {typ} is named {name!r}, expected one of {expected_name(idx, typ)}", case)
+            return
+        # the enum-indexed view must name the setting the same way (unknown indices have no member name)
+        ename = getattr(ekey, "name", None)
+        if (ename or f"BeaconSetting_{idx}") not in expected_name(idx, typ):
+            ctx.violation("views.names", f"index {idx} type {typ}: enum-indexed view names it {ename!r}, name-indexed view {name!r}", case)
             return
         if not (isinstance(nv, (bytes, int)) and isinstance(nv, bytes) == isinstance(cv, bytes) == isinstance(ev, bytes) and nv == cv == ev):
             ctx.violation("views.agree", f"index {idx}: name/const/enum views give {nv!r} / {cv!r} / {ev!r}", case)
